@@ -168,3 +168,10 @@ def describe(cases, obs):
                 pat['all'] += all(fl)
                 pat['consecutive'] += any(a and b for a, b in zip(fl, fl[1:]))
     return {'handlers': h, 'contexts': ctx, 'failing_patterns_over_lifetimes': pat, 'operators': muxprop.op_histogram(cases)}
+
+
+CLAIM = {
+    'text': 'Theorems (Coq): map/filter emit exactly one mux error per failing item at its position; a failing scan step leaves the accumulator untouched so the item is absent for what follows; with ignore the failing step emits nothing and all others are unchanged; error.map emits the mapped item in place; the router sends the exception to the dead-letter channel in order; without handler the error becomes on_error at the demux in the same step; other keys unaffected (C02). Oracle: the same pipeline with the non-raising function on the trace without the failing items; dead-letter sequence and completion; composition oracle for error.map followed by stateful operators.',
+    'note': 'Trusted: Coq kernel+VM; hand-written model; only exceptions raised inside the try blocks of map/starmap/filter/scan are modelled (errors_handled fragment).',
+    'technique': 'Coq proof (forward-simulation refinement of a slot-level model by per-key local machines, list-level induction) + vm_compute correspondence against /repo + model-free oracle',
+}
